@@ -201,7 +201,14 @@ def ff_case(gid, c, salt=0, xsd=False):
     fb = b.slide.shapes.build_freeform(c["sx"] + d(0), c["sy"] + d(1), scale=(c["xn"] / c["xd"], c["yn"] / c["yd"]))
     pend = []
     k = 2
-    for op in c["ops"]:
+    cuts = set(c.get("cuts") or [])
+    for n_done, op in enumerate(c["ops"]):
+        if n_done in cuts:            # an earlier convert_to_shape on the half-drawn pen; its shape is discarded
+            if pend:
+                fb.add_line_segments(pend, close=False)
+                pend = []
+            early = fb.convert_to_shape(c["ox"], c["oy"])
+            early._element.getparent().remove(early._element)
         if op["k"] == "line":
             pend.append((op["x"] + d(k), op["y"] + d(k + 1)))
             k += 2
